@@ -15,13 +15,13 @@ from . import c19
 ACCEPTED_WRITES: Dict[str, str] = {
     # key = "<module>::<Class> [<kind> <what is written>]": stable when the write moves into a private helper of the same
     # class or temporaries are renamed; a write of ANOTHER key, by ANOTHER class, or of another kind is not covered.
-    "cube.py::Cube [store 'elements']": "augment_response: caller-owned response of a single-filter column cube; guarded by the length test which the three writes falsify (counts get the summary's length)",
-    "cube.py::Cube [store 'counts']": "augment_response: same guard; written value has the summary's length, so a second call is a no-op",
-    "cube.py::Cube [store 'data']": "augment_response: same guard",
     "cube.py::_BaseMeasure [read-only flag]": "makes the cached raw array read-only (the mechanism that protects it); `flags.writeable = False` or `setflags(write=False)`",
     "dimension.py::_ElementIdShim [store 'subvar_alias']": "adds a key that no value computation reads (aliases are read from value.references.alias / id); rewriting gives the same value",
     "dimension.py::_ElementIdShim [store 'datetime_value']": "copy of el['value'], which is never modified",
     "util.py::lazyproperty [store __dict__]": "the descriptor's own cache store",
+    # NOT accepted (D38): the three stores of `Cube.augment_response` into the CALLER's response (elements, counts, count data).
+    # Within one CubeSet the edit is idempotent (the padded lists have the summary's length), but the response dict the
+    # caller still holds is padded too: a Cube built on it later shows rows the same response as JSON text does not.
     # NOT accepted (D29): `Cube.inflate` inserting the synthetic rows dimension into the CALLER's response.  Through CubeSet
     # the edit is self-limiting (the inflated response no longer has 0 dimensions), but `inflate` is public: a second
     # `Cube(d).inflate()` on the same dict stacks a second dimension.  The inflated cube gets a response of its own.
@@ -35,7 +35,7 @@ def run(ctx: Ctx):
     ctx.explanation = (
         "EFFECTS: complete inventory of writes (stores, augmented assignments, del, mutating method calls, out= arguments) "
         "with a freshness classification of the written object; every write to an object not created by the writing "
-        "function must be one of the 7 listed sites, each with its idempotence argument (the retraction property of the "
+        "function must be one of the 4 listed sites, each with its idempotence argument (the retraction property of the "
         "id translation is decided by DECTAB); descriptor discipline of lazyproperty; read-only raw arrays; no module "
         "state; one-shot iterators are not cached for several readers; the raw response argument is only read through "
         "the normaliser (JSON / dict / envelope equivalence); who may call the two response-editing methods."
@@ -86,7 +86,7 @@ def write_inventory(ctx: Ctx):
         ctx.note(f"listed write site no longer present: {k}")
     ctx.require_min("write sites in the package", 120)
     # positive control: the classifier must still recognise the known caller-owned writes
-    ctx.require_min("non-fresh write sites", 7)
+    ctx.require_min("non-fresh write sites", 4)
     # positive control of the Fresh class: the NaN stores of population_proportions go to a freshly assembled array
     fresh_stores = [w for w in sites if w.cls == "Fresh" and w.kind == "store" and w.member.cls.name in ("_Slice", "_Strand")]
     ctx.count("stores into freshly assembled arrays (_Slice/_Strand)", len(fresh_stores))
@@ -166,7 +166,12 @@ def idempotence(ctx: Ctx):
                                         store_ok = True
                     if not store_ok:
                         ctx.undecided("idempotence.augment", where + " [counts store]", vals[:2], "[0] * len(<summary counts>)")
-    if guard_ok and store_ok:
+    from ..effects import inventory as _inv
+
+    owned_writes = [w for w in _inv(ctx.repo) if w.member.cls.name == "Cube" and w.member.name == "augment_response" and w.cls in ("Owned", "Shared")]
+    if store_ok is None and not owned_writes:
+        ctx.held("idempotence.augment", where, "the caller's response is not written at all: the padded cube gets a response of its own", "no edit, nothing to be idempotent")
+    elif guard_ok and store_ok:
         ctx.held("idempotence.augment", where, "guard len(cube counts) != len(summary counts); the edit stores counts of the summary's length", "after the edit the guard is false on any later call")
     elif store_ok is None or guard_ok is None:
         ctx.undecided("idempotence.augment", where, f"guard found={guard_ok} store found={store_ok}", "guard compares the lengths the edit equalises")
